@@ -19,3 +19,23 @@ func (op *ShellOperator) VerifC18Setup(hooksDir, tempDir string) error {
 func (op *ShellOperator) VerifC18HandleHookRun(t task.Task) queue.TaskResult {
 	return op.taskHandleHookRun(t)
 }
+
+// VerifC18NewQueue creates a named queue the way bootstrapMainQueue / initAndStartHookQueues do
+// (NewNamedQueue with the operator's task handler) and returns it, not started, so that the caller
+// can shorten its delays through the public fields.
+func (op *ShellOperator) VerifC18NewQueue(name string) *queue.TaskQueue {
+	op.TaskQueues.NewNamedQueue(name, op.taskHandler)
+	return op.TaskQueues.GetByName(name)
+}
+
+// VerifC18EnableSchedules handles an EnableScheduleBindings task for the hook with the operator's
+// task handler (what the main queue does at start-up).
+func (op *ShellOperator) VerifC18EnableSchedules(t task.Task) queue.TaskResult {
+	return op.taskHandler(t)
+}
+
+// VerifC18ScheduleEvent is the schedule event callback installed by initHookManager: the HookRun
+// tasks for one tick of crontab.
+func (op *ShellOperator) VerifC18ScheduleEvent(crontab string) []task.Task {
+	return op.ManagerEventsHandler.scheduleCb(crontab)
+}
